@@ -257,14 +257,18 @@ class Visitor:
         decorators: list[Decorator] = []
         if node.decorator_list:
             lineno = node.decorator_list[0].lineno
-            decorators.extend(
-                Decorator(
-                    safe_get_expression(decorator_node, parent=self.current, parse_strings=False),  # type: ignore[arg-type]
-                    lineno=decorator_node.lineno,
-                    endlineno=decorator_node.end_lineno,
+            for decorator_node in node.decorator_list:
+                decorator_value = safe_get_expression(decorator_node, parent=self.current, parse_strings=False)
+                if decorator_value is None:
+                    # (Unsupported expression: skipped, like for functions.)
+                    continue
+                decorators.append(
+                    Decorator(
+                        decorator_value,
+                        lineno=decorator_node.lineno,
+                        endlineno=decorator_node.end_lineno,
+                    ),
                 )
-                for decorator_node in node.decorator_list
-            )
         else:
             lineno = node.lineno
 
